@@ -25,7 +25,7 @@ it runs under SIGALRM; "blocked" = the thread stands at the same frames at conse
 waiting for a provider lock that is locked although no other thread exists in the process (nobody can ever
 release it; independent of timing), or stands still for four alarms.
 """
-import os, sys, json, time, signal, select, threading, traceback, sqlite3
+import os, sys, json, time, mmap, struct, signal, select, threading, traceback, sqlite3
 from vf import core
 from vf.seams import dbapi
 
@@ -39,24 +39,62 @@ TOKEN_TIMEOUT = 600          # generous: only bound the damage of a harness bug 
 CASE_TIMEOUT = 1800
 FORK_GRACE = 10
 
+MIDS = ('sessions', 'nothing', 'r', 'w')    # what a process that forks again did BEFORE it forked
+WHO = {0: 'p', 1: 'c', 2: 'g', 3: 'gg'}
+NAMES = dict(p='parent', c='child', g='grandchild', gg='great-grandchild')
+
 def cases(tier):
+    quick = tier == 'quick'
     out = []
     for pool in POOLS:
         for point in POINTS:
             ends = ('commit', 'rollback') if point == 'other-thread-write-transaction' else ('-',)
-            forkers = ('main', 'helper') if point != 'before-bind' and (tier != 'quick' or (pool == 'sqlite' and point.startswith('other-thread'))) else ('main',)
+            forkers = ('main', 'helper') if point != 'before-bind' and (not quick or (pool == 'sqlite' and point.startswith('other-thread'))) else ('main',)
+            pooled = point not in ('before-bind', 'after-disconnect')      # something to inherit at the first fork
+            def add(forker, end, order, child_ops, depth, mid='sessions', dbs=1, use='a'):
+                out.append(dict(pool=pool, point=point, forker=forker, holder_end=end, order=order, child_ops=child_ops,
+                                depth=depth, mid=mid, dbs=dbs, use=use))
             for forker in forkers:
                 for end in ends:
+                    # family 0: one database, every process runs sessions before it forks
                     for order in ('child-first', 'parent-first'):
                         for child_ops in ('rw', 'wr'):
                             for depth in (1, 2):
-                                if tier == 'quick' and depth == 2 and (order, child_ops) != ('child-first', 'rw'): continue
-                                out.append(dict(pool=pool, point=point, forker=forker, holder_end=end, order=order,
-                                                child_ops=child_ops, depth=depth))
+                                if quick and depth == 2 and (order, child_ops) != ('child-first', 'rw'): continue
+                                add(forker, end, order, child_ops, depth)
+                    # family A: what the intermediate processes did before they forked again (nothing = daemonisation)
+                    if forker == 'main' or not quick:
+                        for mid in MIDS[1:]:
+                            if quick and mid != 'nothing': continue
+                            for order in ('child-first', 'parent-first'):
+                                if (quick or forker != 'main') and order != 'child-first': continue
+                                add(forker, end, order, 'rw', 2, mid=mid)
+                    if forker == 'main' and not quick:
+                        for mid in MIDS: add(forker, end, 'child-first', 'rw', 3, mid=mid)
+                    # family B: two bound Database objects (two pools); descendants use them in either order
+                    if forker == 'main' and (pooled or not quick):
+                        for use in ('ab', 'ba'):
+                            for order in ('child-first', 'parent-first'):
+                                for child_ops in ('rw', 'wr'):
+                                    if quick and (order, child_ops) != ('child-first', 'rw'): continue
+                                    add(forker, end, order, child_ops, 1, dbs=2, use=use)
+                            if not quick:
+                                for mid in MIDS[:2]: add(forker, end, 'child-first', 'rw', 2, mid=mid, dbs=2, use=use)
     return out
 
 def case_name(c):
-    return '%(pool)s/%(point)s/%(forker)s/%(holder_end)s/%(order)s/%(child_ops)s/%(depth)d' % c
+    return '%(pool)s/%(point)s/%(forker)s/%(holder_end)s/%(order)s/%(child_ops)s/%(depth)d/%(mid)s/%(dbs)d%(use)s' % c
+
+def pre_ops(case, level):
+    """sessions a descendant runs before it forks again (or, for the last process of the chain, at all)"""
+    if level == case['depth']: return case['child_ops'] if level == 1 else 'rwr'
+    return {'sessions': case['child_ops'] if level == 1 else 'rw', 'nothing': '', 'r': 'r', 'w': 'w'}[case['mid']]
+def post_ops(pre):
+    """sessions of an intermediate process after its own child has finished: whatever it has not done yet, then a read"""
+    return {'': 'rw', 'r': 'wr', 'w': 'r'}.get(pre, 'r')
+def use_order(case, level):
+    if case['dbs'] == 1: return [0]
+    return [0, 1] if (level == 0 or case['use'] == 'ab') else [1, 0]
 
 # =================================================================================================
 # inside the history processes
@@ -117,20 +155,29 @@ def bind(db, pool, path):
         db.bind('oracle', user='vf', password='vf', dsn=path)
     else: raise AssertionError(pool)
 
-def read_session(db, who, steps):
+SEQ = None
+def _seq():
+    """position of a session in the one global order: the processes of a history take turns (pipes), the
+    counter lives in an anonymous shared mapping created before the first fork"""
+    n = struct.unpack('q', SEQ[:8])[0] + 1
+    SEQ[:8] = struct.pack('q', n)
+    return n
+
+def read_session(db, i, who, steps):
     from pony import orm
-    step = dict(actor=who, kind='read')
+    step = dict(actor=who, kind='read', db=i)
     try:
         with orm.db_session:
             step['rows'] = sorted(db.select("v from t"))
         step['ok'] = True
     except Exception as e:
         step.update(ok=False, error='%s: %s' % (type(e).__name__, str(e)[:200]), exc=type(e).__name__)
+    step['seq'] = _seq()
     steps.append(step)
 
-def write_session(db, who, tag, steps, alarm=False):
+def write_session(db, i, who, tag, steps, alarm=False):
     from pony import orm
-    step = dict(actor=who, kind='write', tag=tag)
+    step = dict(actor=who, kind='write', tag=tag, db=i)
     def body(tag=tag):
         with orm.db_session:
             db.execute("insert into t (v) values ($tag)")
@@ -148,7 +195,16 @@ def write_session(db, who, tag, steps, alarm=False):
         step['threads_in_process'] = threading.active_count()
     except Exception as e:
         step.update(ok=False, error='%s: %s' % (type(e).__name__, str(e)[:200]), exc=type(e).__name__)
+    step['seq'] = _seq()
     steps.append(step)
+
+def run_ops(dbs, order, ops, who, tag, steps, alarm=True):
+    """every session of `ops` on every database, databases in `order`. After a blocked write the process
+    writes no more (the lock state cannot change any more: it would only wait again)"""
+    for op in ops:
+        for i in order:
+            if op == 'r': read_session(dbs[i], i, who, steps)
+            elif not any(s.get('blocked') for s in steps): write_session(dbs[i], i, who, tag, steps, alarm=alarm)
 
 def _send(fd, b=b'x'):
     os.write(fd, b)
@@ -169,7 +225,7 @@ def _write_all(fd, data):
         n = os.write(fd, data)
         data = data[n:]
 
-def pool_state(db):
+def pool_state():
     """how many foreign connections / pools the pid check has set aside in this process"""
     from pony.orm import dbapiprovider
     n = len(dbapiprovider.Pool.forked_connections)
@@ -177,42 +233,44 @@ def pool_state(db):
     if mod is not None: n += len(mod.OraPool.forked_pools)
     return n
 
-def descendant(db, case, path, who, first_ops, fds, depth_left):
-    """body of a forked process (child or grandchild); never returns"""
+def bind_all(dbs, case, paths):
+    for db, path in zip(dbs, paths):
+        if db.provider is None: bind(db, case['pool'], path)
+
+def descendant(dbs, case, paths, level, fds):
+    """body of a forked process (child, grandchild, ...); never returns"""
     code = 0
+    who = WHO[level]
     try:
         del LOG[:]
         steps = []
-        rep = dict(pid=os.getpid(), ppid=os.getppid(), who=who, steps=steps)
+        rep = dict(pid=os.getpid(), ppid=os.getppid(), who=who, level=level, steps=steps)
         go_r, tok_w, tok_r, rep_w = fds
         if go_r is not None: _wait(go_r)
-        if db.provider is None: bind(db, case['pool'], path)
-        first_write = True
-        for op in first_ops:
-            if op == 'r': read_session(db, who, steps)
-            else:
-                write_session(db, who, who + '1', steps, alarm=True)
+        bind_all(dbs, case, paths)
+        order, pre = use_order(case, level), pre_ops(case, level)
+        run_ops(dbs, order, pre, who, who + '1', steps)
         if tok_w is not None:
             _send(tok_w); _wait(tok_r)
-            read_session(db, who, steps)
+            if pre: run_ops(dbs, order, 'r', who, None, steps)
         blocked = any(s.get('blocked') for s in steps)
-        if depth_left > 0 and not blocked:
+        if level < case['depth'] and not blocked:
             r, w = os.pipe()
             pid = os.fork()
             if pid == 0:
                 os.close(r)
-                descendant(db, case, path, 'g', 'rwr', (None, None, None, w), 0)
+                descendant(dbs, case, paths, level + 1, (None, None, None, w))
             os.close(w)
             data = _read_all(r, TOKEN_TIMEOUT)
             try: os.kill(pid, signal.SIGKILL)
             except OSError: pass
             os.waitpid(pid, 0)
-            rep['grandchild'] = json.loads(data.decode()) if data else dict(harness_error='grandchild did not report')
-            read_session(db, who, steps)
-        elif depth_left > 0:
-            rep['grandchild_skipped'] = 'child write blocked'
+            rep['child'] = json.loads(data.decode()) if data else dict(harness_error='%s did not report' % NAMES[WHO[level + 1]])
+            run_ops(dbs, order, post_ops(pre), who, who + '2', steps)
+        elif level < case['depth']:
+            rep['descendant_skipped'] = 'write blocked'
         rep['log'] = list(LOG)
-        rep['set_aside'] = pool_state(db)
+        rep['set_aside'] = pool_state()
     except BaseException:
         rep = dict(who=who, harness_error=traceback.format_exc()[-1500:])
     try: _write_all(fds[3], json.dumps(rep).encode())
@@ -224,14 +282,19 @@ def history(case, path):
     from pony import orm
     from vf.props import _c36_fake as fake
     import gc; gc.disable()
-    raw = sqlite3.connect(path)
-    raw.execute('create table t (id integer primary key, v text)')
-    raw.execute("insert into t (v) values ('init')")
-    raw.commit(); raw.close()
-    fake.install(path)
+    global SEQ
+    SEQ = mmap.mmap(-1, 8)                       # anonymous + shared: one counter for the whole process tree
+    paths = [path, path + '.b'][:case['dbs']]
+    for f in paths:
+        raw = sqlite3.connect(f)
+        raw.execute('create table t (id integer primary key, v text)')
+        raw.execute("insert into t (v) values ('init')")
+        raw.commit(); raw.close()
+    fake.install(path, paths)
     del LOG[:]
     dbapi.ENV.reset(handler=_logger)
-    db = orm.Database()
+    dbs = [orm.Database() for f in paths]
+    everywhere = use_order(case, 0)
     point, pool = case['point'], case['pool']
     rep = dict(pid=os.getpid(), who='p', steps=[], prefork=[])
     holder_kind = {'other-thread-read-session': 'read', 'other-thread-write-transaction': 'write'}.get(point)
@@ -240,10 +303,11 @@ def history(case, path):
     def holder_body():
         try:
             with orm.db_session:
-                if holder_kind == 'write':
-                    tag = 'h'
-                    db.execute("insert into t (v) values ($tag)")
-                else: db.select("v from t")
+                for db in dbs:                   # one session of the other thread over all databases
+                    if holder_kind == 'write':
+                        tag = 'h'
+                        db.execute("insert into t (v) values ($tag)")
+                    else: db.select("v from t")
                 holder_state['in_session'] = True
                 holding.set()
                 if not finish.wait(TOKEN_TIMEOUT): raise core.HarnessError('holder was never told to finish')
@@ -256,9 +320,9 @@ def history(case, path):
     def forker_body():
         try:
             if point in ('idle-after-session', 'after-disconnect'):
-                read_session(db, 'p', rep['prefork'])
-                write_session(db, 'p', 'p0', rep['prefork'])
-                if point == 'after-disconnect': db.disconnect()
+                run_ops(dbs, everywhere, 'rw', 'p', 'p0', rep['prefork'], alarm=False)
+                if point == 'after-disconnect':
+                    for db in dbs: db.disconnect()
             if holder_kind:
                 if not holding.wait(TOKEN_TIMEOUT) or 'error' in holder_state:
                     raise core.HarnessError('holder thread failed: %r' % holder_state)
@@ -271,8 +335,8 @@ def history(case, path):
         child_first = case['order'] == 'child-first'
         rep['log_before_fork'] = len(LOG)
         rep['threads_at_fork'] = threading.active_count()
-        if db.provider is not None and hasattr(getattr(db.provider, 'transaction_lock', None), 'locked'):
-            rep['transaction_lock_held_at_fork'] = db.provider.transaction_lock.locked()
+        rep['transaction_lock_held_at_fork'] = any(db.provider.transaction_lock.locked() for db in dbs if db.provider is not None
+                                                   and hasattr(getattr(db.provider, 'transaction_lock', None), 'locked'))
         forked = threading.Event()
         if holder_kind:
             # a tree whose fork() waits for the other thread's transaction (an at-fork handler taking the
@@ -285,8 +349,7 @@ def history(case, path):
         pid = os.fork()
         if pid == 0:
             for fd in (go_w, c2p_r, p2c_w, rep_r): os.close(fd)
-            descendant(db, case, path, 'c', case['child_ops'],
-                       (go_r, c2p_w if child_first else None, p2c_r if child_first else None, rep_w), case['depth'] - 1)
+            descendant(dbs, case, paths, 1, (go_r, c2p_w if child_first else None, p2c_r if child_first else None, rep_w))
         for fd in (go_r, c2p_w, p2c_r, rep_w): os.close(fd)
         forked.set()
         rep['child_pid'] = pid
@@ -295,22 +358,21 @@ def history(case, path):
                 finish.set()
                 if not holder_done.wait(TOKEN_TIMEOUT): raise core.HarnessError('holder thread did not finish')
                 rep['holder'] = dict(holder_state)
-            if db.provider is None: bind(db, pool, path)
+            bind_all(dbs, case, paths)
             if child_first:
                 _send(go_w); _wait(c2p_r)
-            read_session(db, 'p', rep['steps'])
-            write_session(db, 'p', 'p1', rep['steps'])
+            run_ops(dbs, everywhere, 'rw', 'p', 'p1', rep['steps'], alarm=False)
             if child_first: _send(p2c_w)
             else: _send(go_w)
             data = _read_all(rep_r, TOKEN_TIMEOUT)
             rep['child'] = json.loads(data.decode()) if data else dict(harness_error='child did not report (killed)')
-            read_session(db, 'p', rep['steps'])
+            run_ops(dbs, everywhere, 'r', 'p', None, rep['steps'])
         finally:
             try: os.kill(pid, signal.SIGKILL)
             except OSError: pass
             try: os.waitpid(pid, 0)
             except OSError: pass
-    if point != 'before-bind': bind(db, pool, path)
+    if point != 'before-bind': bind_all(dbs, case, paths)
     if case['forker'] == 'main':
         if holder_kind: threading.Thread(target=holder_body, daemon=True).start()
         forker_body()
@@ -330,7 +392,7 @@ def run_case(case):
     d = dbapi.scratch_dir()
     run_case.n = getattr(run_case, 'n', 0) + 1
     path = os.path.join(d, 'c36-%d-%d.sqlite' % (os.getpid(), run_case.n))
-    for suffix in ('', '-journal'):
+    for suffix in ('', '-journal', '.b', '.b-journal'):
         if os.path.exists(path + suffix): os.unlink(path + suffix)
     r, w = os.pipe()
     sys.stdout.flush(); sys.stderr.flush()
@@ -351,58 +413,67 @@ def run_case(case):
     try: os.killpg(pid, signal.SIGKILL)          # P, and any C / G that may have been left behind
     except OSError: pass
     os.waitpid(pid, 0)
-    for suffix in ('', '-journal'):
+    for suffix in ('', '-journal', '.b', '.b-journal'):
         if os.path.exists(path + suffix): os.unlink(path + suffix)
     if not data: return dict(harness_error='history process did not report within %ds' % CASE_TIMEOUT)
     return json.loads(data.decode())
 
+def descendants(rep):
+    """[(level, report)] of the forked processes, outermost first"""
+    out, r = [], rep.get('child')
+    while r is not None:
+        out.append((len(out) + 1, r))
+        r = r.get('child')
+    return out
+
 def global_order(case, rep):
-    """all session steps of all processes in the order the pipes enforce"""
-    p, c = list(rep.get('steps', [])), list(rep.get('child', {}).get('steps', []))
-    g = list(rep.get('child', {}).get('grandchild', {}).get('steps', []))
-    has_g = bool(g)
-    if case['order'] == 'child-first':
-        seq = c[:2] + p[:2] + c[2:3] + g + c[3:] + p[2:]
-    else:
-        seq = p[:2] + c[:2] + g + c[2:] + p[2:]
+    """all session steps of all processes in the order the pipes enforced (shared counter)"""
+    seq = list(rep.get('steps', []))
+    for level, r in descendants(rep): seq.extend(r.get('steps', []))
+    seq.sort(key=lambda s: s['seq'])
     return seq
 
 def judge(case, rep):
     """-> (list of (signature, message), facts for counters)"""
-    out, facts = [], dict(steps=0, child_driver_calls=0, grandchild_driver_calls=0, set_aside=0, reads=0, writes_ok=0)
+    out, facts = [], dict(steps=0, child_driver_calls=0, grandchild_driver_calls=0, set_aside=0, reads=0, writes_ok=0,
+                          last_set_aside=0, processes=1)
     pool, point = case['pool'], case['point']
     def harness(where, text): raise core.HarnessError('C36 %s %s: %s' % (case_name(case), where, text))
     if 'harness_error' in rep: harness('P', rep['harness_error'])
-    child = rep.get('child')
-    if child is None: harness('P', 'no child report')
-    if 'harness_error' in child: harness('C', child['harness_error'])
-    g = child.get('grandchild')
-    if g is not None and 'harness_error' in g: harness('G', g['harness_error'])
+    if rep.get('child') is None: harness('P', 'no child report')
+    tree = descendants(rep)
+    for level, r in tree:
+        if 'harness_error' in r: harness(WHO.get(level, '?').upper(), r['harness_error'])
+    if len(tree) != case['depth'] and not any(r.get('descendant_skipped') for level, r in tree):
+        harness('P', '%d forked processes reported, %d expected' % (len(tree), case['depth']))
     for s in rep['prefork']:
         if not s['ok']: harness('P', 'pre-fork session failed: %r' % s)
     if rep.get('holder', {}).get('error'): harness('P', 'holder thread: %s' % rep['holder']['error'])
     # (1) no call on a connection / session pool created by another process
-    for who, r in (('child', child), ('grandchild', g)):
-        if r is None: continue
+    for level, r in tree:
+        who = NAMES[WHO[level]]
         foreign = [e for e in r['log'] if e[2] is not None and e[2] != r['pid']]
-        facts[who + '_driver_calls'] = len(r['log'])
+        facts['child_driver_calls' if level == 1 else 'grandchild_driver_calls'] += len(r['log'])
         facts['set_aside'] += r.get('set_aside', 0)
+        facts['last_set_aside'] = r.get('set_aside', 0)
+        facts['processes'] += 1
         if foreign:
             kinds = sorted(set(e[3] for e in foreign))
             owner = 'parent' if foreign[0][2] == r['ppid'] else 'ancestor'
             out.append(('foreign-connection-used|%s|%s|%s' % (pool, who, ','.join(kinds)),
-                        '%s (pid %d) issued %d driver calls %r on a connection created by its %s (pid %d) after fork point %s'
-                        % (who, r['pid'], len(foreign), kinds, owner, foreign[0][2], point)))
+                        '%s (pid %d) issued %d driver calls %r on a connection created by its %s (pid %d) after fork point %s (history %s)'
+                        % (who, r['pid'], len(foreign), kinds, owner, foreign[0][2], point, case_name(case))))
     if any(e[2] is not None and e[2] != rep['pid'] for e in rep['log']):
         harness('P', 'the first process used a connection it did not create')
-    # (2) (3) (4) sessions in pipe order
-    committed = set(['init'])
-    if any(s.get('tag') == 'p0' and s['ok'] for s in rep['prefork']): committed.add('p0')
-    if point == 'other-thread-write-transaction' and rep.get('holder', {}).get('ended') == 'commit': committed.add('h')
-    names = dict(p='parent', c='child', g='grandchild')
+    # (2) (3) (4) sessions in pipe order, one set of committed rows per database
+    committed = [set(['init']) for i in range(case['dbs'])]
+    for s in rep['prefork']:
+        if s.get('tag') == 'p0' and s['ok']: committed[s['db']].add('p0')
+    if point == 'other-thread-write-transaction' and rep.get('holder', {}).get('ended') == 'commit':
+        for c in committed: c.add('h')
     for s in global_order(case, rep):
         facts['steps'] += 1
-        who = names[s['actor']]
+        who = NAMES[s['actor']]
         if s.get('blocked'):
             inner = [f.split(':')[1] for f in s['stack'][:6]]
             lock = 'provider-lock' if 'acquire_lock' in inner else 'elsewhere'
@@ -412,17 +483,18 @@ def judge(case, rep):
             continue
         if not s['ok']:
             out.append(('session-failed|%s|%s|%s|%s' % (pool, who, s['kind'], s.get('exc')),
-                        '%s session of the %s failed after fork point %s: %s' % (s['kind'], who, point, s.get('error'))))
+                        '%s session of the %s failed after fork point %s: %s (history %s)' % (s['kind'], who, point, s.get('error'), case_name(case))))
             continue
         if s['kind'] == 'write':
-            committed.add(s['tag']); facts['writes_ok'] += 1
+            committed[s['db']].add(s['tag']); facts['writes_ok'] += 1
         else:
             facts['reads'] += 1
-            if sorted(s['rows']) != sorted(committed):
-                missing, extra = sorted(committed - set(s['rows'])), sorted(set(s['rows']) - committed)
+            want = committed[s['db']]
+            if sorted(s['rows']) != sorted(want):
+                missing, extra = sorted(want - set(s['rows'])), sorted(set(s['rows']) - want)
                 out.append(('rows-differ|%s|%s|%s' % (pool, who, 'missing' if missing else 'extra'),
-                            'read session of the %s after fork point %s sees %r, committed so far %r'
-                            % (who, point, sorted(s['rows']), sorted(committed))))
+                            'read session of the %s on database %d after fork point %s sees %r, committed so far %r (history %s)'
+                            % (who, s['db'], point, sorted(s['rows']), sorted(want), case_name(case))))
     return out, facts
 
 def worker(case):
@@ -435,14 +507,23 @@ def worker(case):
     if facts['child_driver_calls']: sub.count('children_that_issued_driver_calls')
     if facts['grandchild_driver_calls']: sub.count('grandchildren_that_issued_driver_calls')
     if facts['set_aside']: sub.count('histories_where_the_pid_check_set_a_connection_aside')
+    sub.count('processes', facts['processes'])
+    pooled = case['point'] not in ('before-bind', 'after-disconnect')
+    if case['depth'] >= 2 and case['mid'] == 'nothing':
+        sub.count('histories_idle_intermediate')
+        if pooled and facts['last_set_aside']: sub.count('idle_intermediate_where_the_last_process_set_a_connection_aside')
+    if case['dbs'] == 2:
+        sub.count('histories_two_databases')
+        if pooled and rep['child'].get('set_aside', 0) >= 2: sub.count('two_databases_where_the_child_set_both_connections_aside')
+    sub.count('histories_depth_%d' % case['depth'])
     if rep.get('transaction_lock_held_at_fork'): sub.count('forks_while_transaction_lock_held')
     if rep.get('fork_waited_for_other_thread'): sub.count('forks_that_waited_for_the_other_thread')
-    outcome = json.dumps([[s['actor'], s['kind'], s.get('ok'), s.get('blocked', False), s.get('rows')]
+    outcome = json.dumps([[s['actor'], s['kind'], s['db'], s.get('ok'), s.get('blocked', False), s.get('rows')]
                           for s in global_order(case, rep)])
     for sig, msg in found:
         sub.violation(sig, dict(case=case, signature=sig), msg)
-    if case['depth'] == 2 and case['child_ops'] == 'rw' and case['order'] == 'child-first' and case['forker'] == 'main':
-        sub.sample(dict(history=case_name(case), steps=[[s['actor'], s['kind'], 'ok' if s.get('ok') else ('BLOCKED' if s.get('blocked') else s.get('error')),
+    if (case['depth'] >= 2 or case['dbs'] == 2) and case['child_ops'] == 'rw' and case['order'] == 'child-first' and case['forker'] == 'main':
+        sub.sample(dict(history=case_name(case), steps=[[s['actor'], s['kind'], s['db'], 'ok' if s.get('ok') else ('BLOCKED' if s.get('blocked') else s.get('error')),
                                                           s.get('rows')] for s in global_order(case, rep)],
                         child_driver_calls=facts['child_driver_calls']), limit=2)
     return dict(sub=sub.dump(), outcome=outcome, steps=facts['steps'])
@@ -469,20 +550,29 @@ def run(ctx):
     n = ctx.counters.get('histories', 0)
     ctx.cov['distinct_outcomes'] = len(outcomes)
     ctx.cov['bounds'] = ('%d histories = pools %r x fork points %r x forking thread x how the other thread ends x order of '
-                         'sessions x first sessions of the child x fork depth 1..2' % (n, POOLS, POINTS))
+                         'sessions x first sessions of the child x fork depth 1..%d x what an intermediate process did before it '
+                         'forked again %r x bound Database objects 1..2 (descendants use them in both orders); the %s tier '
+                         'takes the sub-product listed in cases()' % (n, POOLS, POINTS, 2 if ctx.quick else 3, MIDS, ctx.tier))
     ctx.guard('histories', n, 100)
     ctx.guard('child processes that really issued driver calls', ctx.counters.get('children_that_issued_driver_calls', 0), 100)
     ctx.guard('grandchild processes that really issued driver calls', ctx.counters.get('grandchildren_that_issued_driver_calls', 0), 20)
     ctx.guard('histories in which the pid check set a parent connection aside', ctx.counters.get('histories_where_the_pid_check_set_a_connection_aside', 0), 50)
     ctx.guard('forks taken while another thread held the SQLite transaction lock (or that waited for it)',
               ctx.counters.get('forks_while_transaction_lock_held', 0) + ctx.counters.get('forks_that_waited_for_the_other_thread', 0), 4)
+    ctx.guard('histories whose intermediate process opened no session before it forked again (double fork)',
+              ctx.counters.get('histories_idle_intermediate', 0), 20)
+    ctx.guard('... in which the last process set an inherited connection aside',
+              ctx.counters.get('idle_intermediate_where_the_last_process_set_a_connection_aside', 0), 12)
+    ctx.guard('histories with two bound Database objects', ctx.counters.get('histories_two_databases', 0), 30)
+    ctx.guard('... in which the child set the inherited connections of both aside',
+              ctx.counters.get('two_databases_where_the_child_set_both_connections_aside', 0), 20)
     ctx.guard('read sessions compared', ctx.counters.get('reads', 0), 400)
     ctx.guard('distinct outcomes', len(outcomes), 4)
     ctx.assume('a fork from inside an open db_session of the forking thread is excluded (the child would still be inside the parent\'s session)')
     ctx.assume('pg / base / oracle: the driver is a recording fake on a sqlite3 file (vf/props/_c36_fake.py); Pool, PGPool and OraPool run unmodified')
     ctx.assume('"blocked" = same frames at two SIGALRMs %d s apart while waiting for a locked provider lock in a single-threaded process, '
                'or no progress for four alarms; other waits use timeouts of %d s' % (ALARM_S, TOKEN_TIMEOUT))
-    transitions = steps + 2 * n          # + bind/pre-fork and fork edges
+    transitions = steps + n + (ctx.counters.get('processes', 0) - n)          # + bind/pre-fork and one edge per fork
     return dict(states=transitions + 1, transitions=transitions, traces_validated_against_impl=n)
 
 def replay(ctx, case):
@@ -494,7 +584,7 @@ def replay(ctx, case):
     found, facts = judge(c, rep)
     print('history %s' % case_name(c))
     for s in global_order(c, rep):
-        print('  %s %-5s %s %s' % (s['actor'], s['kind'], 'ok' if s.get('ok') else ('BLOCKED at ' + s['stack'][0] if s.get('blocked') else s.get('error')),
+        print('  %-2s db%d %-5s %s %s' % (s['actor'], s['db'], s['kind'], 'ok' if s.get('ok') else ('BLOCKED at ' + s['stack'][0] if s.get('blocked') else s.get('error')),
                                  s.get('rows') or s.get('tag') or ''))
     for sig, msg in found: print(' %s: %s' % (sig, msg))
     return not found
